@@ -556,11 +556,17 @@ def selftest(seed, n, raws, layouts=None, quiet=False, only_run=None):
     other_env.update({"LANG": "de_DE.UTF-8", "LC_ALL": "de_DE.UTF-8", "LC_NUMERIC": "de_DE.UTF-8", "TZ": "Pacific/Kiritimati", "NO_COLOR": "1",
                       "CLICOLOR": "0", "CLICOLOR_FORCE": "0", "TERM": "dumb", "COLUMNS": "20", "LINES": "5", "HOME": "/nonexistent", "RUST_BACKTRACE": "0",
                       "RUST_LOG": "trace", "COOKLANG_DEBUG": "1"})
+    # ... and in a working directory that contains recipe files named like some ingredient names
+    # of the workload (a result may not depend on what exists in the file system either)
+    fsenv = os.path.join(b.dir, "fsenv")
+    for rel in ("pasta/spaghetti.cook", "salt/pepper.cook", "sauces/tomato sauce.cook", "pasta/spaghetti", "flour.cook", "water.cook"):
+        os.makedirs(os.path.dirname(os.path.join(fsenv, rel)), exist_ok=True)
+        open(os.path.join(fsenv, rel), "w").write("Boil @water{1%l}.\n")
     for li, W in enumerate(layouts):
         for w in range(W):
             dump = os.path.join(b.dir, f"log-{W}-{w}.txt")
             b.spawn(["c18", "--seed", str(seed), "--salt", "4", "--runs", str(n), "--worker", str(w), "--workers", str(W),
-                     "--scheds", "2", "--dump-log", dump], f"st-{W}-{w}", env=other_env if li == 1 else None, cwd="/" if li == 1 else None)
+                     "--scheds", "2", "--dump-log", dump], f"st-{W}-{w}", env=other_env if li == 1 else None, cwd=fsenv if li == 1 else None)
     outs, hung = b.wait(1200)
     if hung:
         die(f"selftest workers hung: {hung}")
